@@ -1,8 +1,9 @@
 (* C09/Check.v — correspondence + property oracle for one harness case (executable only).
 
    Case layouts (first token = tag, zigzag):
-   1 TRACE : procs frames fsb0 pfsb0 (obj fsb pfsb)* err
-             one complete scan; the two offsets read before the first Scan and after every Scan
+   1 TRACE : procs frames fsb0 pfsb0 (obj fsb pfsb)* err fsbN pfsbN
+             one complete scan; the two offsets read before the first Scan, after every Scan, and
+             once more after Scan has returned false
    2 STOPS : procs frames runs    run = k_lo k_hi fsb pfsb resumed rerr prev_resumed perr short
              for EVERY stop position k (0..all objects): scan k objects, read the offsets, Close,
              open a second scanner on data[fsb:] (and one on data[pfsb:]); equal observations of
@@ -23,11 +24,13 @@ Definition ptriple : P (obj * Z * Z) := o <- ptok ;; c <- pint ;; p <- pint ;; r
 
 Definition check_trace : P (list Z) :=
   procs <- pint ;; fs <- pframes ;; fsb0 <- pint ;; pfsb0 <- pint ;;
-  tr <- plist ptriple ;; err <- pint ;;
+  tr <- plist ptriple ;; err <- pint ;; fsbN <- pint ;; pfsbN <- pint ;;
   let r := scan current fs (total_size fs) in
+  let pair_is (x : Z * Z) := (fst x =? pfsbN) && (snd x =? fsbN) in
   let j1 := list_eqb triple_eqb (trace r) tr && (err =? outcome_code (out r))
-            && (fsb0 =? 0) && (pfsb0 =? 0) in
-  let j2 := list_eqb triple_eqb (spec_trace fs) tr && (err =? 0) && (fsb0 =? 0) && (pfsb0 =? 0) in
+            && (fsb0 =? 0) && (pfsb0 =? 0) && pair_is (final_offsets 0 0 (deliveries r)) in
+  let j2 := list_eqb triple_eqb (spec_trace fs) tr && (err =? 0) && (fsb0 =? 0) && (pfsb0 =? 0)
+            && pair_is (spec_final fs) in
   ret (code_if j1 1 ++ code_if j2 2)%list.
 
 (* the model of "open a second scanner on data[off:]" *)
